@@ -6,7 +6,7 @@
 //       by the op lines (fork "succeeds" by returning this process' own pid, so the parent's
 //       direct kill(pid, SIGCONT) lands on a counting handler here), or
 //   (b) REAL: a real child is forked through the seam; it performs the given actions (die by a
-//       signal, _exit(n), fail a check, stop itself) in the given phase (plugin pre-action,
+//       signal, _exit(n), fail a check / report K+1 failures from a plugin action (`fail K`), stop itself) in the given phase (plugin pre-action,
 //       setup, body, teardown, plugin post-action).  The results of the real waitpid are
 //       recorded as environment lines (`rwait`).
 //
@@ -21,6 +21,9 @@
 //                 waitpid seam (the tree's own PlatformSpecificWaitPid implementation, which this harness
 //                 calls for real tests) is interrupted; `ticks T n ms` (informational) reports the number of
 //                 handler invocations during the test and its wall time.  (action `sleep MS`: the child sleeps)
+//   ign T : registry entry T is an IgnoredUtestShell (an IGNORE_TEST with the same acting setup/body/teardown): it is run only
+//           when run-ignored is on, and then it must be forked like every other test
+//   ri    : registry.setRunIgnored() (what -ri does; in cli mode give `-ri` on the cli line instead)
 //   grp T G : test T belongs to group "gG" (adjacent tests with the same name form a group)
 //   cli [ARG...] : the run goes through CommandLineTestRunner with argv {"runner", ARG...} (bare `cli` = `-p`;
 //             the registry is NOT put into separate-process mode by the harness).  ARGs: `-p` (required, anywhere)
@@ -30,7 +33,7 @@
 //             are stubbed (JUnit "files" go to the same capture).
 // observations after `> run`, per test in registry order:
 //   started T / forked T fail|ok|real / rwait T ... / starved T / consumed T n / conts T n /
-//   fail T <hex first line of the message> / ended T
+//   childst T HEX (real: final wait status, core flag masked) / fail T <hex first line of the message> / ended T
 //   inrunner T : the test's code was executed inside the runner process (it must never be: every test
 //                of a separate-process run is forked).  A real test then really performs its action
 //                in the runner (the runner dies -> `crash ...`), except `stop`, which would wedge the harness.
@@ -74,16 +77,19 @@ struct TestSpec {
     int conts;
     int group;
     bool inRunner;
+    bool ignoredKind;                // the registry entry is an IgnoredUtestShell (IGNORE_TEST); run only with run-ignored
     long tickUsec;                   // > 0: periodic SIGUSR1 (no SA_RESTART) while the parent waits
     long ticks, elapsedMs;
     bool realForkFailed;
+    bool haveFinal; unsigned int finalStatus;   // real: the status with which the real waitpid reported the child's end
     std::vector<std::string> envLines, failLines;
     std::string forkLine;
-    TestSpec() : real(false), forkFails(false), next(0), starved(false), phase(PH_NONE), inject(0), injected(0), pid(0), conts(0), group(0), inRunner(false), tickUsec(0), ticks(0), elapsedMs(0), realForkFailed(false) {}
+    TestSpec() : real(false), forkFails(false), next(0), starved(false), phase(PH_NONE), inject(0), injected(0), pid(0), conts(0), group(0), inRunner(false), ignoredKind(false), tickUsec(0), ticks(0), elapsedMs(0), realForkFailed(false), haveFinal(false), finalStatus(0) {}
 };
 
 std::vector<TestSpec> g_tests;
-std::vector<ExecFunctionTestShell*> g_shells;
+std::vector<UtestShell*> g_shells;
+bool g_run_ignored = false;          // API mode: registry.setRunIgnored() (cli mode: -ri)
 int g_cur = -1;                      // test the registry is running (parent) / this child is
 bool g_in_child = false;             // true in a forked test child: nothing may be printed
 volatile sig_atomic_t g_sigconts = 0;
@@ -136,6 +142,8 @@ void flush_test_lines(int t) {
     if (s.starved) vh::emit("starved %d", t);
     if (s.tickUsec > 0 && s.real) vh::emit("ticks %d %ld %ld", t, s.ticks, s.elapsedMs);
     if (!s.real) { vh::emit("consumed %d %lu", t, (unsigned long) s.next); vh::emit("conts %d %d", t, s.conts); }
+    // the wait status the child ended with (core-dump flag masked: it depends on the machine's limits)
+    if (s.real && s.haveFinal) vh::emit("childst %d %x", t, WIFSIGNALED((int) s.finalStatus) ? (s.finalStatus & 0x7f) : s.finalStatus);
     for (size_t i = 0; i < s.failLines.size(); i++) vh::emit("%s", s.failLines[i].c_str());
     s.forkLine.clear(); s.envLines.clear(); s.failLines.clear();
 }
@@ -232,7 +240,7 @@ extern "C" int seam_waitpid(int pid, int* status, int options) {
     else if (r < 0) snprintf(buf, sizeof buf, "rwait %d err %d", g_cur, e);
     else {
         snprintf(buf, sizeof buf, "rwait %d st %x", g_cur, (unsigned int) *status);
-        if (WIFEXITED(*status) || WIFSIGNALED(*status)) s.pid = 0;
+        if (WIFEXITED(*status) || WIFSIGNALED(*status)) { s.pid = 0; s.haveFinal = true; s.finalStatus = (unsigned int) *status; }
     }
     s.envLines.push_back(buf);
     errno = e;
@@ -277,7 +285,9 @@ void act(int phase, UtestShell* test, TestResult* result) {
         else if (a.what == "stop") kill(getpid(), SIGSTOP);
         else if (a.what == "fail") {
             char msg[64]; snprintf(msg, sizeof msg, "childfailure-of-test-%d-", g_cur);
-            if (test && result) result->addFailure(TestFailure(test, msg));   // as MemoryLeakWarningPlugin does
+            // a plugin action reports arg+1 failures straight into the result (as MemoryLeakWarningPlugin does);
+            // a failed check in setup / body / teardown leaves the phase at once
+            if (test && result) for (long k = 0; k <= a.arg && k < 1024; k++) result->addFailure(TestFailure(test, msg));
             else FAIL(msg);
         }
     }
@@ -286,6 +296,18 @@ void act(int phase, UtestShell* test, TestResult* result) {
 void fn_setup() { act(PH_SETUP, 0, 0); }
 void fn_body() { act(PH_BODY, 0, 0); }
 void fn_teardown() { act(PH_TEARDOWN, 0, 0); }
+
+// an IGNORE_TEST whose setup / body / teardown are the same acting functions
+class ActingUtest : public Utest {
+public:
+    void setup() CPPUTEST_OVERRIDE { fn_setup(); }
+    void testBody() CPPUTEST_OVERRIDE { fn_body(); }
+    void teardown() CPPUTEST_OVERRIDE { fn_teardown(); }
+};
+class IgnoredActingShell : public IgnoredUtestShell {
+public:
+    Utest* createTest() CPPUTEST_OVERRIDE { return new ActingUtest; }
+};
 
 class ActingPlugin : public TestPlugin {
 public:
@@ -439,13 +461,20 @@ void run_registry() {
         registry.setCurrentRegistry(&registry);
         registry.installPlugin(&plugin);
         if (!g_cli) registry.setRunTestsInSeperateProcess();
+        if (!g_cli && g_run_ignored) registry.setRunIgnored();
         std::vector<std::string> names(n), groups(n);
-        g_shells.assign(n, (ExecFunctionTestShell*) 0);
+        g_shells.assign(n, (UtestShell*) 0);
+        std::vector<ExecFunctionTestShell*> execShells;
         std::vector<ExecFunctionWithoutParameters*> bodies;
         for (size_t k = n; k-- > 0;) {            // addTest prepends: add in reverse so that test 0 runs first
-            ExecFunctionTestShell* sh = new ExecFunctionTestShell(fn_setup, fn_teardown);
-            ExecFunctionWithoutParameters* b = new ExecFunctionWithoutParameters(fn_body);
-            sh->testFunction_ = b; bodies.push_back(b);
+            UtestShell* sh;
+            if (g_tests[k].ignoredKind) sh = new IgnoredActingShell;
+            else {
+                ExecFunctionTestShell* es = new ExecFunctionTestShell(fn_setup, fn_teardown);
+                ExecFunctionWithoutParameters* b = new ExecFunctionWithoutParameters(fn_body);
+                es->testFunction_ = b; bodies.push_back(b); execShells.push_back(es);
+                sh = es;
+            }
             char nm[24]; snprintf(nm, sizeof nm, "t%lu", (unsigned long) k); names[k] = nm;
             sh->setTestName(names[k].c_str());
             snprintf(nm, sizeof nm, "g%d", g_tests[k].group); groups[k] = nm;
@@ -516,7 +545,8 @@ void run_registry() {
         }
         for (size_t k = 0; k < n; k++) if (g_tests[k].real) vh::emit("phases %lu%s", (unsigned long) k, per[k].c_str());
         registry.setCurrentRegistry(savedRegistry);
-        for (size_t k = 0; k < n; k++) { g_shells[k]->testFunction_ = 0; delete g_shells[k]; }
+        for (size_t k = 0; k < execShells.size(); k++) execShells[k]->testFunction_ = 0;
+        for (size_t k = 0; k < n; k++) delete g_shells[k];
         for (size_t k = 0; k < bodies.size(); k++) delete bodies[k];
     }
     stop_ticks();
@@ -543,6 +573,7 @@ void run_case(const vh::Case& c) {
     g_cli = false;
     g_cli_args.clear();
     g_nproc0 = false;
+    g_run_ignored = false;
     bool ran = false;
 #ifdef VH_C11_NOFORK
     vh::emit_op("nofork");      // this binary links the fork-less variant of UtestPlatform.cpp
@@ -578,6 +609,12 @@ void run_case(const vh::Case& c) {
         else if (w[0] == "grp" && w.size() == 3 && parse_t(w, t)) {
             char* end = 0; unsigned long g = strtoul(w[2].c_str(), &end, 10);
             if (end && !*end && g < 1000) { g_tests[t].group = (int) g; vh::emit_op(c.raw[i]); continue; }
+        }
+        else if (w[0] == "ign" && w.size() == 2 && parse_t(w, t)) {
+            g_tests[t].ignoredKind = true; vh::emit_op(c.raw[i]); continue;
+        }
+        else if (w[0] == "ri" && w.size() == 1 && !g_tests.empty() && !g_run_ignored) {
+            g_run_ignored = true; vh::emit_op(c.raw[i]); continue;
         }
         else if (w[0] == "tick" && w.size() == 3 && parse_t(w, t)) {
             char* end = 0; unsigned long us = strtoul(w[2].c_str(), &end, 10);
